@@ -1,0 +1,290 @@
+// Verification seams. Compiled only with `--cfg edp_verif`; with the guard
+// off this file is not part of the crate and the shipped behaviour is unchanged.
+//
+// A deterministic simulator installs an implementation of `Sim` for the current
+// thread. While one is installed, "TCP" connections, cooperative yield points,
+// the handshake challenge source and hash iteration order are decided by it.
+
+use std::cell::RefCell;
+use std::collections::{HashMap, HashSet};
+use std::future::Future;
+use std::hash::{BuildHasher, Hasher};
+use std::io;
+use std::ops::{Deref, DerefMut};
+use std::pin::Pin;
+use std::sync::Arc;
+use std::task::{Context, Poll};
+use tokio::io::{AsyncRead, AsyncWrite, ReadBuf};
+
+pub type BoxRead = Box<dyn AsyncRead + Send + Sync + Unpin>;
+pub type BoxWrite = Box<dyn AsyncWrite + Send + Sync + Unpin>;
+pub type ConnectFuture = Pin<Box<dyn Future<Output = io::Result<(BoxRead, BoxWrite)>> + Send>>;
+
+/// Decision taken by the simulator at a cooperative yield point.
+#[derive(Debug, Clone, Copy, PartialEq, Eq)]
+pub enum Yield {
+    Continue,
+    YieldNow,
+    SleepMs(u64),
+}
+
+pub trait Sim: Send + Sync {
+    fn connect(&self, addr: &str) -> ConnectFuture;
+    fn at_yield_point(&self, site: &'static str) -> Yield;
+    fn challenge(&self) -> Option<u32>;
+    fn hash_salt(&self) -> u64;
+}
+
+thread_local! {
+    static SIM: RefCell<Option<Arc<dyn Sim>>> = const { RefCell::new(None) };
+}
+
+/// Installs (or removes) the simulator for the current thread.
+pub fn install(sim: Option<Arc<dyn Sim>>) {
+    SIM.with(|s| *s.borrow_mut() = sim);
+}
+
+fn current() -> Option<Arc<dyn Sim>> {
+    SIM.with(|s| s.borrow().clone())
+}
+
+/// A point at which the simulator may let other tasks run. Without a simulator
+/// installed it returns at once.
+pub async fn yield_point(site: &'static str) {
+    let decision = match current() {
+        Some(sim) => sim.at_yield_point(site),
+        None => Yield::Continue,
+    };
+    match decision {
+        Yield::Continue => {}
+        Yield::YieldNow => YieldOnce(false).await,
+        Yield::SleepMs(ms) => tokio::time::sleep(std::time::Duration::from_millis(ms)).await,
+    }
+}
+
+struct YieldOnce(bool);
+
+impl Future for YieldOnce {
+    type Output = ();
+    fn poll(mut self: Pin<&mut Self>, cx: &mut Context<'_>) -> Poll<()> {
+        if self.0 {
+            Poll::Ready(())
+        } else {
+            self.0 = true;
+            cx.waker().wake_by_ref();
+            Poll::Pending
+        }
+    }
+}
+
+pub fn challenge_override() -> Option<u32> {
+    current().and_then(|sim| sim.challenge())
+}
+
+pub fn hash_salt() -> u64 {
+    current().map(|sim| sim.hash_salt()).unwrap_or(0)
+}
+
+// ---------------------------------------------------------------------------
+// Simulated stream types with the subset of the tokio::net API this crate uses.
+// ---------------------------------------------------------------------------
+
+pub struct TcpStream {
+    read: BoxRead,
+    write: BoxWrite,
+}
+
+impl TcpStream {
+    pub async fn connect<A: AsRef<str>>(addr: A) -> io::Result<TcpStream> {
+        let sim = current().ok_or_else(|| {
+            io::Error::new(
+                io::ErrorKind::NotConnected,
+                "edp_verif build: no simulator installed on this thread",
+            )
+        })?;
+        let (read, write) = sim.connect(addr.as_ref()).await?;
+        Ok(TcpStream { read, write })
+    }
+
+    pub fn from_parts(read: BoxRead, write: BoxWrite) -> TcpStream {
+        TcpStream { read, write }
+    }
+
+    pub fn into_split(self) -> (OwnedReadHalf, OwnedWriteHalf) {
+        (OwnedReadHalf(self.read), OwnedWriteHalf(self.write))
+    }
+}
+
+impl AsyncRead for TcpStream {
+    fn poll_read(
+        mut self: Pin<&mut Self>,
+        cx: &mut Context<'_>,
+        buf: &mut ReadBuf<'_>,
+    ) -> Poll<io::Result<()>> {
+        Pin::new(&mut self.read).poll_read(cx, buf)
+    }
+}
+
+impl AsyncWrite for TcpStream {
+    fn poll_write(
+        mut self: Pin<&mut Self>,
+        cx: &mut Context<'_>,
+        buf: &[u8],
+    ) -> Poll<io::Result<usize>> {
+        Pin::new(&mut self.write).poll_write(cx, buf)
+    }
+
+    fn poll_flush(mut self: Pin<&mut Self>, cx: &mut Context<'_>) -> Poll<io::Result<()>> {
+        Pin::new(&mut self.write).poll_flush(cx)
+    }
+
+    fn poll_shutdown(mut self: Pin<&mut Self>, cx: &mut Context<'_>) -> Poll<io::Result<()>> {
+        Pin::new(&mut self.write).poll_shutdown(cx)
+    }
+}
+
+pub struct OwnedReadHalf(BoxRead);
+
+impl OwnedReadHalf {
+    pub fn from_box(read: BoxRead) -> Self {
+        OwnedReadHalf(read)
+    }
+}
+
+impl AsyncRead for OwnedReadHalf {
+    fn poll_read(
+        mut self: Pin<&mut Self>,
+        cx: &mut Context<'_>,
+        buf: &mut ReadBuf<'_>,
+    ) -> Poll<io::Result<()>> {
+        Pin::new(&mut self.0).poll_read(cx, buf)
+    }
+}
+
+pub struct OwnedWriteHalf(BoxWrite);
+
+impl AsyncWrite for OwnedWriteHalf {
+    fn poll_write(
+        mut self: Pin<&mut Self>,
+        cx: &mut Context<'_>,
+        buf: &[u8],
+    ) -> Poll<io::Result<usize>> {
+        Pin::new(&mut self.0).poll_write(cx, buf)
+    }
+
+    fn poll_flush(mut self: Pin<&mut Self>, cx: &mut Context<'_>) -> Poll<io::Result<()>> {
+        Pin::new(&mut self.0).poll_flush(cx)
+    }
+
+    fn poll_shutdown(mut self: Pin<&mut Self>, cx: &mut Context<'_>) -> Poll<io::Result<()>> {
+        Pin::new(&mut self.0).poll_shutdown(cx)
+    }
+}
+
+// ---------------------------------------------------------------------------
+// Hash containers whose iteration order is a function of the simulator's salt
+// (std's RandomState would make it differ from run to run).
+// ---------------------------------------------------------------------------
+
+#[derive(Clone, Copy, Debug)]
+pub struct DetState(u64);
+
+impl DetState {
+    pub fn new() -> Self {
+        DetState(hash_salt())
+    }
+}
+
+impl Default for DetState {
+    fn default() -> Self {
+        Self::new()
+    }
+}
+
+pub struct DetHasher(u64);
+
+impl Hasher for DetHasher {
+    fn finish(&self) -> u64 {
+        let mut z = self.0;
+        z = (z ^ (z >> 30)).wrapping_mul(0xbf58_476d_1ce4_e5b9);
+        z = (z ^ (z >> 27)).wrapping_mul(0x94d0_49bb_1331_11eb);
+        z ^ (z >> 31)
+    }
+
+    fn write(&mut self, bytes: &[u8]) {
+        for b in bytes {
+            self.0 = (self.0 ^ u64::from(*b)).wrapping_mul(0x0000_0100_0000_01b3);
+        }
+    }
+}
+
+impl BuildHasher for DetState {
+    type Hasher = DetHasher;
+    fn build_hasher(&self) -> DetHasher {
+        DetHasher(0xcbf2_9ce4_8422_2325 ^ self.0)
+    }
+}
+
+#[derive(Debug, Clone)]
+pub struct DetHashSet<T>(HashSet<T, DetState>);
+
+impl<T> DetHashSet<T> {
+    pub fn new() -> Self {
+        DetHashSet(HashSet::with_hasher(DetState::new()))
+    }
+}
+
+impl<T> Default for DetHashSet<T> {
+    fn default() -> Self {
+        Self::new()
+    }
+}
+
+impl<T> Deref for DetHashSet<T> {
+    type Target = HashSet<T, DetState>;
+    fn deref(&self) -> &Self::Target {
+        &self.0
+    }
+}
+
+impl<T> DerefMut for DetHashSet<T> {
+    fn deref_mut(&mut self) -> &mut Self::Target {
+        &mut self.0
+    }
+}
+
+#[derive(Debug, Clone)]
+pub struct DetHashMap<K, V>(HashMap<K, V, DetState>);
+
+impl<K, V> DetHashMap<K, V> {
+    pub fn new() -> Self {
+        DetHashMap(HashMap::with_hasher(DetState::new()))
+    }
+}
+
+impl<K, V> Default for DetHashMap<K, V> {
+    fn default() -> Self {
+        Self::new()
+    }
+}
+
+impl<K, V> Deref for DetHashMap<K, V> {
+    type Target = HashMap<K, V, DetState>;
+    fn deref(&self) -> &Self::Target {
+        &self.0
+    }
+}
+
+impl<K, V> DerefMut for DetHashMap<K, V> {
+    fn deref_mut(&mut self) -> &mut Self::Target {
+        &mut self.0
+    }
+}
+
+impl<'a, K, V> IntoIterator for &'a mut DetHashMap<K, V> {
+    type Item = (&'a K, &'a mut V);
+    type IntoIter = std::collections::hash_map::IterMut<'a, K, V>;
+    fn into_iter(self) -> Self::IntoIter {
+        self.0.iter_mut()
+    }
+}
